@@ -283,12 +283,10 @@ PROPS = {
         'runs': {'quick': [conc(10, 20, 20, 40), seq('mixed', 15, 150), seq('lower', 10, 150), seq('malformed', 10, 100)],
                  'thorough': [conc(120, 100, 100, 600, bound=3), seq('mixed', 300, 300), seq('lower', 200, 300), seq('malformed', 200, 300), seq('change', 100, 300)]},
         'rule': T_RULE + ('Freeze experiments: at sampled scheduling points of explored schedules all threads but one are frozen and the remaining '
-                          'call must complete within a fixed budget of atomic accesses (solo_bound of the configuration); K1 panics end a call. '
+                          'call must complete within a fixed budget of atomic accesses (solo_bound of the configuration); the measured count of every freeze run is also sent to the Lean driver (`solocheck n`), which compares it with the proved bound apiB of the configuration; K1 panics end a call. '
                           'Sequential histories (every call runs without interference) under a watchdog: a call of the real allocator that makes no '
                           'progress for 20 s ends the run with exit 78 and is reported with the call as C21 violation (also for failing calls: '
                           'targeted gets on partly allocated chunks, frees with a wrong order, malformed calls).'),
-        'partial': ('proved: every call of the model terminates when run alone from any intermediate thread state and memory (structural: no waiting '
-                    'loop without a retry budget), each update loop needs at most 2 more accesses; an explicit uniform numeric bound is measured'),
         'assumptions': ['hooked atomics: a yield point before every Atom access; compare_exchange never fails spuriously'],
     },
     'C18': {
